@@ -65,6 +65,11 @@ class Prop(PropBase):
                     cfg = scen.rand_cfg(rng, dense=1, wait=0, lclock=1, pktcb=0, tsfirst=0, mode=3, nblk=rng.choice([1, 2, 3, 5]))
                     scn_all.append(scen.mixed_scenario(rng, self.L, t, f'c05_densetail_{t}_{r}', cfg, malformed_p=0.0, gap_p=0.05, badblk_p=0.0,
                                                        npk=3, tail_invalid_p=1.0))
+                if self.L[t].mech:
+                    # ts_first_point with frames that begin in the middle of a packet: the stamp is the first BLOCK's time, not the packet's
+                    cfg = scen.rand_cfg(rng, dense=0, wait=0, lclock=1, pktcb=0, tsfirst=1, mode=3, nblk=rng.choice([5, 7]))
+                    scn_all.append(scen.mixed_scenario(rng, self.L, t, f'c05_tsfirst_{t}_{r}', cfg, malformed_p=0.0, gap_p=0.0, badblk_p=0.0,
+                                                       npk=rng.choice([4, 6]), difop_at=0))
                 if r % 2 == 0:
                     cfg = scen.rand_cfg(rng, dense=rng.randrange(2), wait=0, lclock=0, pktcb=rng.randrange(2))
                     scn_all.append(scen.mixed_scenario(rng, self.L, t, f'c05_host_{t}_{r}', cfg, malformed_p=0.05, gap_p=0.1, host=True,
